@@ -121,7 +121,7 @@ class SetTargetMonitor(taps.Monitor):
         if isinstance(t, mt.Homogeneous):
             e = tx.maxdiff(t.h_matrix, fresh.h_matrix)
             ctx.err("h_matrix_vs_fresh", e)
-            if e > 1e-8 * scale:
+            if not (e <= 1e-8 * scale):
                 ctx.fail("retargeted_alignment_has_another_matrix_than_a_fresh_one", cls=cls, mech=opts, err=e)
         if isinstance(t, AbstractPWA):
             x = gen.points_inside_mesh(np.random.default_rng(4), t.source.points, np.asarray(t.source.trilist), 10, margin=0.08)
@@ -130,7 +130,7 @@ class SetTargetMonitor(taps.Monitor):
         try:
             e = tx.maxdiff(t.apply(x), fresh.apply(x))
             ctx.err("map_vs_fresh", e)
-            if e > 1e-7 * scale:
+            if not (e <= 1e-7 * scale):
                 ctx.fail("retargeted_alignment_maps_differently_from_a_fresh_one", cls=cls, mech=opts, err=e)
         except Exception as ex:
             ctx.fail("retargeted_alignment_cannot_be_applied", cls=cls, mech=type(ex).__name__)
@@ -169,7 +169,7 @@ class GPAMonitor(taps.Monitor):
                 ctx.fail("gpa_member_is_not_targeted_at_the_reported_target", cls="GeneralizedProcrustesAnalysis", err=tx.maxdiff(t.target.points, tgt))
             e = tx.maxdiff(t.h_matrix, fresh.h_matrix)
             ctx.err("gpa_member_vs_fresh", e)
-            if e > 1e-8 * scale:
+            if not (e <= 1e-8 * scale):
                 ctx.fail("gpa_member_is_not_the_alignment_to_the_reported_target", cls="GeneralizedProcrustesAnalysis",
                          mech="mirror" if st["mirror"] else "proper", err=e)
             if tx.maxdiff(t.source.points, s) > 0:
@@ -238,7 +238,7 @@ def audit_live(ctx, live, just_retargeted):
                 e = tx.maxdiff(o.h_matrix, fresh.h_matrix)
             else:
                 e = tx.maxdiff(o.aligned_source().points, fresh.aligned_source().points)
-            if e > 1e-8 * scale:
+            if not (e <= 1e-8 * scale):
                 ctx.fail("retargeting_one_object_changed_another_live_copy", cls=type(o).__name__, err=e)
 
 
